@@ -75,7 +75,8 @@ func veqList(a, b []interface{}) bool {
 var vTokens = []string{"0", "1", "-1", "+5", "007", "0x10", "1e3", "1.5", "-0", ".5", "5.", "1_000", "9223372036854775807", "9223372036854775808", "-9223372036854775808", "-9223372036854775809",
 	"18446744073709551616", "1e400", "-1e400", "1e-400", "1e308", "1.7976931348623157e308", "1.8e308", "4.9e-324", "0x1p-1074", "0X1P+2", "0x1p-2", "inf", "-Inf", "+inf", "Infinity", "infinity", "INF", "NaN", "nan", "nAn", "NaN(1)",
 	"true", "false", "T", "F", "t", "f", "TRUE", "True", "FALSE", "False", "tRUE", "true ", "yes", "no", "on", "off", "y", "", " ", "  ", " 1", "1 ", "\t1", "1\n", "a", "é", "1,2", "0b1", "0o7", "0o17", "017", "0x", "0b",
-	"١", "１", "０", "1e", "e1", ".", "-", "+", "--1", "1__0", "_1", "1_", "0_1", "0.1e-1", "1E5", "3.0", "-0.0", "+0", "\x00", "\xff\xfe", "a,b", ",", "1,", ",1", "=", "-x", "--", strings.Repeat("9", 300), strings.Repeat("1", 40) + ".5"}
+	"١", "１", "０", "1e", "e1", ".", "-", "+", "--1", "1__0", "_1", "1_", "0_1", "0.1e-1", "1E5", "3.0", "-0.0", "+0", "\x00", "\xff\xfe", "a,b", ",", "1,", ",1", "=", "-x", "--", strings.Repeat("9", 300), strings.Repeat("1", 40) + ".5",
+	"000000000000000000042", "+00000000000000000000007", "-000000000000000000000", "0000000000000000000000.50", "08", "09", "010", "0100", "$HOME", "$1", "a$b", "${x}", "100%", "%d", "caf\xe9.txt"}
 
 // mostly valid tokens (C06)
 var vPlain = map[vkind][]string{
@@ -98,6 +99,7 @@ type vcase struct {
 	envName []string
 	envVal  []string // "\x00" = unset
 	declIdx int
+	formSalt int
 	// the caller's default slices (multi-valued types), shared by every application built for this case
 	dS []string
 	dI []int
@@ -128,10 +130,24 @@ func (v *vcase) finish() {
 			v.Argv = append([]string{"--"}, v.Cli...)
 		}
 	} else {
-		for _, t := range v.Cli {
-			if t == "" {
+		for i, t := range v.Cli {
+			// every documented spelling that can carry the token: --xx=tok, -x=tok, -xtok (not for flags, token not
+			// starting with '='), --xx tok / -x tok (not for flags; token non-empty... or empty, and not dash-prefixed)
+			form := (len(t) + i + v.formSalt) % 5
+			sep := v.kind != kBool && !strings.HasPrefix(t, "-")
+			att := v.kind != kBool && t != "" && !strings.HasPrefix(t, "=")
+			switch {
+			case t == "":
 				v.Argv = append(v.Argv, "--xx", "")
-			} else {
+			case form == 1:
+				v.Argv = append(v.Argv, "-x="+t)
+			case form == 2 && att:
+				v.Argv = append(v.Argv, "-x"+t)
+			case form == 3 && sep:
+				v.Argv = append(v.Argv, "--xx", t)
+			case form == 4 && sep:
+				v.Argv = append(v.Argv, "-x", t)
+			default:
 				v.Argv = append(v.Argv, "--xx="+t)
 			}
 		}
@@ -251,6 +267,7 @@ func (v *vcase) run() (o vobs) {
 	case kBool:
 		d := v.def[0].(bool)
 		p := new(bool)
+		*p = true // what the variable held before the declaration must not matter
 		switch {
 		case v.asArg && v.declIdx == 0:
 			p = app.Bool(cli.BoolArg{Name: name, Value: d, EnvVar: env, SetByUser: sbu})
@@ -269,6 +286,7 @@ func (v *vcase) run() (o vobs) {
 	case kString:
 		d := v.def[0].(string)
 		p := new(string)
+		*p = "stale" // what the variable held before the declaration must not matter
 		switch {
 		case v.asArg && v.declIdx == 0:
 			p = app.String(cli.StringArg{Name: name, Value: d, EnvVar: env, SetByUser: sbu})
@@ -287,6 +305,7 @@ func (v *vcase) run() (o vobs) {
 	case kInt:
 		d := v.def[0].(int)
 		p := new(int)
+		*p = -77 // what the variable held before the declaration must not matter
 		switch {
 		case v.asArg && v.declIdx == 0:
 			p = app.Int(cli.IntArg{Name: name, Value: d, EnvVar: env, SetByUser: sbu})
@@ -305,6 +324,7 @@ func (v *vcase) run() (o vobs) {
 	case kFloat:
 		d := v.def[0].(float64)
 		p := new(float64)
+		*p = -7.5 // what the variable held before the declaration must not matter
 		switch {
 		case v.asArg && v.declIdx == 0:
 			p = app.Float64(cli.Float64Arg{Name: name, Value: d, EnvVar: env, SetByUser: sbu})
@@ -328,6 +348,7 @@ func (v *vcase) run() (o vobs) {
 		}
 		d := v.dS // the same slice object on every run of this case: the caller's default
 		p := new([]string)
+		*p = []string{"stale", "values"} // what the variable held before the declaration must not matter
 		switch {
 		case v.asArg && v.declIdx == 0:
 			p = app.Strings(cli.StringsArg{Name: name, Value: d, EnvVar: env, SetByUser: sbu})
@@ -351,6 +372,7 @@ func (v *vcase) run() (o vobs) {
 		}
 		d := v.dI
 		p := new([]int)
+		*p = []int{-77, -78} // what the variable held before the declaration must not matter
 		switch {
 		case v.asArg && v.declIdx == 0:
 			p = app.Ints(cli.IntsArg{Name: name, Value: d, EnvVar: env, SetByUser: sbu})
@@ -374,6 +396,7 @@ func (v *vcase) run() (o vobs) {
 		}
 		d := v.dF
 		p := new([]float64)
+		*p = []float64{-7.5} // what the variable held before the declaration must not matter
 		switch {
 		case v.asArg && v.declIdx == 0:
 			p = app.Floats64(cli.Floats64Arg{Name: name, Value: d, EnvVar: env, SetByUser: sbu})
@@ -435,6 +458,9 @@ func genValueCase(r *rand.Rand, wide bool) *vcase {
 		default:
 			if v.kind.multi() {
 				cnt := 1 + r.Intn(3)
+				if r.Intn(25) == 0 {
+					cnt = 60 + r.Intn(15) // a long list (more than 64 elements)
+				}
 				var ps []string
 				for k := 0; k < cnt; k++ {
 					t := tok()
@@ -471,6 +497,7 @@ func genValueCase(r *rand.Rand, wide bool) *vcase {
 		}
 		v.Cli = append(v.Cli, t)
 	}
+	v.formSalt = r.Intn(5)
 	v.declIdx = r.Intn(3)
 	if v.declIdx == 2 {
 		// the short declaration forms take no environment list
